@@ -177,6 +177,9 @@ func genC08(e *emitter, tier string, seed uint64) {
 					e.run("IX.exec", fmt.Sprint(fl), hexE(rawPush(signFor(txs, idx, lock, 5000, ht, k, false))), hexE(lock), d, fmt.Sprint(idx), "5000")
 					mlock := append(append(append([]byte{0x51}, rawPush(k.pubC)...), 0x51), 0xae)
 					e.run("IX.exec", fmt.Sprint(fl|fAfterGenesis), hexE(append([]byte{0x00}, rawPush(signFor(txs, idx, mlock, 5000, ht, k, false))...)), hexE(mlock), d, fmt.Sprint(idx), "5000")
+					// a script code that differs from the locking script: OP_CODESEPARATOR before the check
+					slock := append(rawPush(k.pubC), 0xab, 0xac)
+					e.run("IX.exec", fmt.Sprint(fl), hexE(rawPush(signFor(txs, idx, []byte{0xac}, 5000, ht, k, false))), hexE(slock), d, fmt.Sprint(idx), "5000")
 					e.note("with-tx.signed")
 				}
 			}
